@@ -37,7 +37,7 @@ func TestVerif_C14_UserListConvergence(t *testing.T) {
 	defer c14Rec.Flush()
 	rapid.Check(t, func(t *rapid.T) {
 		r := newRoom(t, "C14", rapid.IntRange(4, 6).Draw(t, "nclients"))
-		r.run(intentWeights{"join": 6, "leave": 3, "disconnect": 2, "moderate": 6, "setdata": 3, "chat": 1, "lock": 1}, 45)
+		r.run(intentWeights{"join": 6, "leave": 3, "disconnect": 2, "moderate": 6, "setdata": 3, "chat": 1, "lock": 1, "flap": 2, "redefine": 1}, 45)
 		c14Rec.Case(r.st.leaves+r.st.kicks+r.st.disconnects > 0 && r.st.permChanges > 0, r.canon(), r.sample())
 		r.classes(c14Rec)
 	})
